@@ -279,6 +279,8 @@ def gen_layout(r, i):
         layout['zero_mode'] = bool(i % 4 != 2)
     if i % 12 == 2:
         layout['defaults_opposite'] = True     # Defaults.ZeroMode says the opposite of the explicit zero_mode= keyword
+    if i % 12 in (7, 9):
+        layout['zero_style'] = ('int', 'late')[i % 12 == 9]     # zero_mode=1 / 0 (an integer from a configuration file); the attribute set after construction
     return layout
 
 
